@@ -57,7 +57,7 @@ def check_run(sc):
                 if clipped:
                     state["clipped"] += 1
                 for i, e in enumerate(els):
-                    bc = sc["bc"][e]
+                    bc = state["bc"][e]
                     if bc[0] == FLUX and bc[2] == FLUX and not clipped:
                         exp = (bc[1] - bc[3]) * dt / model.dz
                         got = float(np.sum(x[i]) - np.sum(prev[i]))
@@ -81,9 +81,16 @@ def check_run(sc):
 
         m.addCouplingModel(Obs())
         truncated = False
+        state["bc"] = {e: list(sc["bc"][e]) for e in els}
         for k, dur in enumerate(sc["durations"]):
             state["call"] = k
             state["first_of_call"] = True
+            if k > 0 and sc.get("bc_calls") and len(sc["bc_calls"]) >= k and sc["bc_calls"][k - 1]:
+                # boundary conditions set again between two solve calls (a side closed, a flux switched on or changed): in force from this call on
+                for e, b in sc["bc_calls"][k - 1].items():
+                    m.setBC(b[0], b[1], b[2], b[3], element=e)
+                    state["bc"][e] = list(b)
+                out.label("boundary_conditions_changed_between_calls")
             if k == 0:
                 m.setup()
                 state["after_setup"] = np.array(m.x, dtype=float)
@@ -226,6 +233,23 @@ def _scenario(draw, cap=150):
     closed = [e for e in els[1:] if bc[e] == [FLUX, 0.0, FLUX, 0.0]]
     if closed and draw(st.booleans()):
         sc["bc_default"] = closed           # closed boundaries left to the model's defaults instead of being set explicitly
+    if len(sc["durations"]) > 1 and draw(st.integers(0, 2)) == 0:
+        # boundary conditions set again between two solve calls: a side closed, a flux switched on, changed or reversed
+        # (a change *to* a fixed composition is not generated: the value of such a condition is only written to the profile at set-up)
+        calls = []
+        cur = {e: list(bc[e]) for e in els[1:]}
+        for _ in sc["durations"][1:]:
+            ch = {}
+            for e in els[1:]:
+                if draw(st.booleans()):
+                    b = list(cur[e])
+                    for k in (0, 2):
+                        if draw(st.booleans()):
+                            b[k], b[k + 1] = FLUX, float(draw(st.sampled_from([0.0, 0.0, 1.0, -1.0, 0.3])) * jmax)
+                    ch[e] = b
+                    cur[e] = b
+            calls.append(ch)
+        sc["bc_calls"] = calls
     if draw(st.integers(0, 2)) == 2:
         sc["prior_bc"] = {e: [COMP, draw(st.floats(0.02, hi)), draw(st.sampled_from([FLUX, COMP])), draw(st.floats(0.02, hi)) * 1e-9] for e in els[1:]}
         for e in els[1:]:
@@ -245,5 +269,5 @@ def clauses():
     return [
         Clause("stub_runs", _scenario, check_run, quick=4000, thorough=60000, shrink=False,
                rule="generator: {single-phase, homogenization} x binary/ternary x 3-120 nodes x mesh 1e-6..1e-2 m x initial profile from 1-3 build steps {linear, step, single, bounded, function, data} inside the simplex x T {const, break points, field T(z,t)} x per element and side {flux (0 or +-1e-14..1e-9), composition} x Euler/RK4 x 1-4 solve calls x homogenization rule/eps x cache toggles; "
-                    "oracle per accepted step: sum_nodes x changes by (J_left-J_right) dt/dz for flux-flux elements (across solve calls too), fixed-composition nodes keep their value, all compositions within [min, 1-min]; non-trivial: non-uniform profile, >= 3 steps and (non-zero flux, composition condition or >= 2 solve calls)"),
+                    "one multi-call case in three sets boundary conditions again between two solve calls (a side closed, a flux switched on, changed or reversed); oracle per accepted step, with the conditions in force: sum_nodes x changes by (J_left-J_right) dt/dz for flux-flux elements (across solve calls too), fixed-composition nodes keep their value, all compositions within [min, 1-min]; non-trivial: non-uniform profile, >= 3 steps and (non-zero flux, composition condition or >= 2 solve calls)"),
     ]
